@@ -608,6 +608,7 @@ package tacquito
 //@   after[C03] crypter.write : ghost.cwrites = ghost.cwrites + 1
 //@   ensures[C03] ghost.cwrites == 1
 //@   ensures[C05] ghost.inPos == old(ghost.inPos)
+//@   ensures[C03] ghost.nwrites <= old(ghost.nwrites) + 1
 
 // ---------------------------------------------------------------------------
 // handlers.go
